@@ -110,6 +110,10 @@ func blockBody(tag string, withParent bool, extra ...gen.Node) []gen.Node {
 			// ... and from inside a filter section
 			out = append(out, tx("^|"), &gen.NFilter{Filters: []string{"b1"}, Body: []gen.Node{tx("f("), pr(&gen.EParent{}), tx(")")}}, tx("|"))
 		}
+		if len(tag)%4 >= 2 {
+			// a macro called in the block before parent(): when the call is over, the block is the current block again
+			out = append(out, &gen.NImport{Tpl: str("c09macs"), Alias: "cm"}, tx("~"), pr(&gen.EMethod{X: nm("cm"), Name: "mm", Args: []gen.Expr{str(tag)}}))
+		}
 		out = append(out, tx("^("), pr(&gen.EParent{}), tx(")"))
 		if len(tag)%2 == 0 || strings.HasPrefix(tag, "ublk") {
 			// once more: what the first call did to the state must not change where the second one goes
@@ -125,7 +129,7 @@ func tname(k int) string { return "t" + strconv.Itoa(k) }
 // buildConfig builds the templates of one configuration. pattern[(k-1)*B+j] in {0,1,2}
 // says what level k (1..L-1) does with block j.
 func buildConfig(g c09group, pattern []int, exprParent bool, useLevel int) *Program {
-	ts := map[string]*gen.Template{}
+	ts := map[string]*gen.Template{"c09macs": tpl("c09macs", &gen.NMacro{Name: "mm", Params: []string{"p"}, Body: []gen.Node{tx("m("), pr(nm("p")), pr(&gen.ECall{Fn: "fn", Args: []gen.Expr{str("in-macro")}}), tx(")")}})}
 	// root
 	var root []gen.Node
 	root = append(root, tx("ROOT["))
@@ -157,6 +161,9 @@ func buildConfig(g c09group, pattern []int, exprParent bool, useLevel int) *Prog
 		var ext gen.Expr = str(tname(k - 1))
 		if exprParent && k%2 == 1 {
 			ext = &gen.EBin{Op: "~", L: str("t"), R: str(strconv.Itoa(k - 1))}
+		} else if exprParent {
+			// the parent's name comes out of a recorded callback: it is asked for once
+			ext = &gen.ECall{Fn: "ident", Args: []gen.Expr{str(tname(k - 1))}}
 		}
 		body = append(body, &gen.NExtends{Tpl: ext})
 		if g.use > 0 && g.use < 3 && k == useLevel {
@@ -225,6 +232,17 @@ func buildConfig(g c09group, pattern []int, exprParent bool, useLevel int) *Prog
 					bb = append([]gen.Node{bb[0], nested}, bb[1:]...)
 				}
 				body = append(body, &gen.NBlock{Name: "b" + strconv.Itoa(j), Body: bb})
+			}
+		}
+		if (k+g.L+g.B+g.layout+g.use)%3 == 1 && g.use != 5 {
+			// the extends tag need not come first: it may follow the blocks (nested ones included), and text
+			if _, isExt := body[0].(*gen.NExtends); isExt {
+				if (k+g.B)%2 == 0 {
+					body = append(body[1:], body[0])
+				} else {
+					mid := 1 + len(body[1:])/2
+					body = append(append(append([]gen.Node{}, body[1:mid+1]...), body[0]), body[mid+1:]...)
+				}
 			}
 		}
 		ts[tname(k)] = tpl(tname(k), body...)
